@@ -16,5 +16,5 @@ import Solvor.Lp.Theorems
 #print axioms Solvor.Lp.chkObjNear_iff
 #print axioms Solvor.Lp.chkResidual_iff
 #print axioms Solvor.Lp.residual_least
-#print axioms Solvor.Lp.simplex_certifies_partial
+#print axioms Solvor.Lp.simplex_certifies
 #print axioms Solvor.Lp.ipm_optimal_test_sound
